@@ -12,7 +12,7 @@ type State struct {
 	heap    []Value
 	pc      []*term.Term // path condition conjuncts (assumptions included)
 	ep      *epoch
-	choices []Choice          // structural choices taken on this path (vp.Choose, map orders)
+	choices []Choice // structural choices taken on this path (vp.Choose, map orders)
 	tags    map[string]*term.Term
 	obs     []Observation
 	written map[int]bool // ids of objects written on this path (write-set monitor)
